@@ -54,6 +54,7 @@ EXPECT = {  # subject substring -> checks that should detect the reversal
     "after the attempt has failed no longer marks": ["C15"],
     "nobody is waiting for does not stay": ["C15"],
     "trailer section after the last chunk": ["C01"],
+    "descriptor now belongs to another connection": ["C09", "C13"],
 }
 
 
